@@ -19,6 +19,7 @@
   functions) and the search (pair runs, restart comparison).
 -/
 import LbfgsbVerif.Model.Memory
+import LbfgsbVerif.Model.Shell
 import Mathlib.Order.Defs.LinearOrder
 import Mathlib.Data.Int.Order.Basic
 
@@ -172,6 +173,31 @@ theorem identity_filter_noop (eps : α) (X G : List (Vec α)) (hlen : X.length =
       (by simp) (by simp)]
     rw [hX, hG]
   · rfl
+
+/-! ### the matrices follow the rewritten history (driver model) -/
+section driver
+variable {β : Type} [Add β] [Sub β] [Mul β] [Div β] [Neg β] [LT β] [DecidableLT β] [OfNat β 0] [OfNat β 1]
+  [FloatLike β]
+
+/-- **C13 (5)** with an update function, after the memory step of an iteration the matrices
+snapshot is exactly the current (rewritten, filtered, possibly extended) history — also when the
+newest pair was rejected, in which case it is rebuilt from the rewritten gradients, or reset to
+"no pair" when a single point is left. (The defect repaired by "rebuild the matrices after
+update_fun_def rewrote the gradients even if the new pair is rejected" kept the stale snapshot.) -/
+theorem memStep_mats_current (c : Cfg β) (s : St β) (hU : c.hasUpdate = true) :
+    (memStep c s).mats = some ((memStep c s).X, (memStep c s).G) ∨
+    ((memStep c s).mats = none ∧ (memStep c s).X.length ≤ 1) := by
+  unfold memStep updateMats
+  simp only [hU, if_true]
+  split
+  · left
+    split <;> rfl
+  · simp only [Bool.false_eq_true, if_false]
+    split
+    · left; rfl
+    · right; exact ⟨rfl, by omega⟩
+
+end driver
 
 /-! ### Non-vacuity: over `ℤ`, a history of four points whose middle pair breaks the
 curvature condition after the rewrite: the filter drops one point and keeps the newest. -/
